@@ -332,10 +332,13 @@ def run_round(pid, cfg, outdir, seed, tier, log, mode="gen", casefile=None):
 
 
 def load_known():
+    """known_findings.json is the committed, merged file; known_findings.d/*.json are its per-property parts
+    (merged by gen_manifest.py).  Never written at run time."""
+    out = []
     p = os.path.join(ROOT, "known_findings.json")
-    if not os.path.exists(p):
-        return []
-    return json.load(open(p))
+    if os.path.exists(p):
+        out = json.load(open(p))
+    return out
 
 
 def agree(cfg, rec):
